@@ -2,12 +2,16 @@ package main
 
 import (
 	"fmt"
+	"go/constant"
 	"go/token"
 	"go/types"
+	"sort"
 	"strconv"
 	"strings"
+	"sync"
 
 	"golang.org/x/tools/go/ssa"
+	"golang.org/x/tools/go/ssa/ssautil"
 )
 
 type Intrinsic func(g *G, args []Value, pos token.Pos) Value
@@ -193,6 +197,17 @@ func init() {
 			panic(pathAbort{kind: "INFEASIBLE", msg: "Choice over empty range"})
 		}
 		return mkInt(uint64(g.vm.choose(n, name, 'H')))
+	})
+	V("BoundaryCount", func(g *G, a []Value, pos token.Pos) Value {
+		return mkInt(uint64(len(boundaryLens(g.vm.prog, argStr(a[0]), argInt(g, a[1])))))
+	})
+	V("Boundary", func(g *G, a []Value, pos token.Pos) Value {
+		l := boundaryLens(g.vm.prog, argStr(a[0]), argInt(g, a[1]))
+		i := argInt(g, a[2])
+		if i < 0 || i >= len(l) {
+			panic(pathAbort{kind: "INFEASIBLE", msg: "Boundary index out of range"})
+		}
+		return mkInt(uint64(l[i]))
 	})
 	V("Param", func(g *G, a []Value, pos token.Pos) Value {
 		if v, ok := g.vm.cfg.Params[argStr(a[0])]; ok {
@@ -1396,4 +1411,67 @@ func (g *G) binaryWrite(w, order, data Iface, pos token.Pos) Value {
 	}
 	res := g.invoke(w, "Write", bs).(Tuple)
 	return res[1]
+}
+
+// boundaryLens derives candidate lengths from the code under test: every integer constant c with 2 <= c <= max
+// that occurs as an operand in a (non-harness) function of the listed packages contributes c-1, c, c+1; 0 and 1 are
+// always included. Recomputed from the current source on every run, so a size threshold introduced by a change
+// (an inline-buffer length, a "large message" cut-off, a pool class) puts its own neighbours on the list.
+var boundaryCache sync.Map
+
+func boundaryLens(prog *ssa.Program, scope string, max int) []int {
+	key := fmt.Sprintf("%s|%d", scope, max)
+	if v, ok := boundaryCache.Load(key); ok {
+		return v.([]int)
+	}
+	want := map[string]bool{}
+	for _, p := range strings.Split(scope, ",") {
+		want[strings.TrimSpace(p)] = true
+	}
+	set := map[int]bool{0: true, 1: true}
+	add := func(c int64) {
+		if c >= 2 && c <= int64(max) {
+			for _, d := range []int64{c - 1, c, c + 1} {
+				if d <= int64(max) {
+					set[int(d)] = true
+				}
+			}
+		}
+	}
+	for f := range ssautil.AllFunctions(prog) {
+		top := f
+		for top.Parent() != nil {
+			top = top.Parent()
+		}
+		if top.Pkg == nil || !want[top.Pkg.Pkg.Path()] || f.Blocks == nil {
+			continue
+		}
+		if strings.HasPrefix(top.Name(), "VH") || strings.HasPrefix(top.Name(), "ZZ") {
+			continue
+		}
+		if pos := prog.Fset.Position(f.Pos()); strings.Contains(pos.Filename, "zz_verif") || strings.HasSuffix(pos.Filename, "_test.go") {
+			continue
+		}
+		for _, b := range f.Blocks {
+			for _, ins := range b.Instrs {
+				for _, op := range ins.Operands(nil) {
+					if op == nil || *op == nil {
+						continue
+					}
+					if c, ok := (*op).(*ssa.Const); ok && c.Value != nil && c.Value.Kind() == constant.Int {
+						if v, exact := constant.Int64Val(c.Value); exact {
+							add(v)
+						}
+					}
+				}
+			}
+		}
+	}
+	var out []int
+	for v := range set {
+		out = append(out, v)
+	}
+	sort.Ints(out)
+	boundaryCache.Store(key, out)
+	return out
 }
